@@ -203,3 +203,39 @@ def explain(ex, limit=60):
             ws = ws[:2] + [f'..{len(ws) - 3} more..'] + ws[-1:]
         parts.append(f'P{pid}[' + ' '.join(ws) + ']')
     return ' '.join(parts)
+
+
+def explore_pair(layout, names, programs, judge, bound, deliver=False,
+                 cap=None, tag='mt'):
+    """Explore every schedule (<= bound preemptions) of the program pair
+    ``names`` from the table ``programs`` (name -> (prologue(i), program(i),
+    ...)); ``judge(layout, names, deliver, ex, info)`` -> violations."""
+    from ..procs import explore, ScheduleError
+    pre = [programs[n][0](i) for i, n in enumerate(names)]
+    progs = [programs[n][1](i) for i, n in enumerate(names)]
+    vios: list = []
+    outcomes: set = set()
+
+    def run(prefix):
+        ex, info = run_schedule(layout, progs, prefix, deliver=deliver,
+                                pre=pre)
+        for x in judge(layout, names, deliver, ex, info):
+            x['replay'] = {tag: True, 'layout': layout, 'names': list(names),
+                           'deliver': deliver, 'prefix': list(prefix)}
+            vios.append(x)
+        fin = info['final']
+        outcomes.add((tuple((k, tuple(v[2]) if v else None)
+                            for k, v in sorted(fin.items())),
+                      tuple((r.name, r.code_arg) for res in info['results']
+                            for _, r, _ in res)))
+        return ex, info
+    try:
+        st = explore(run, bound, max_execs=cap)
+    except ScheduleError as exc:
+        return {'error': repr(exc), 'names': names}
+    finally:
+        drop_templates()
+    st['violations'] = vios
+    st['outcomes'] = len(outcomes)
+    st['names'] = names
+    return st
